@@ -4,7 +4,7 @@
 //	           TransformerPut (parser, CST builder, put_or_filter.go) and feeds it the records followed by the
 //	           end-of-stream marker, in process (the generated parser's tables make process start-up expensive).
 //	           Output, one JSON line per case: {"status":"ok"|"error","err":..., "out":[{"r":[[k,val],...]} | {"s":"line"}]}
-//	           where val is the typed Mlrval: {"i":n} {"s":".."} {"b":true} {"m":[[k,val]...]} {"e":1} {"a":1} {"f":"text"} {"o":"typename"}.
+//	           where val is the typed Mlrval: {"i":n} {"s":".."} {"b":true} {"m":[[k,val]...]} {"l":[val...]} {"e":1} {"a":1} {"f":"text"} {"o":"typename"}.
 //	           A case that makes Miller call os.Exit kills the driver: the caller sees which case has no answer.
 //	c14-stack  one JSON op list per line, run on the real runtime.Stack: [["pushframe"],["define","x","int",val],["get","x"],...]
 //	           Output: JSON list of observations: "u" | "err" | null | val
@@ -46,6 +46,12 @@ func c14Value(v *mlrval.Mlrval) interface{} {
 		return map[string]interface{}{"b": b}
 	case mlrval.MT_MAP:
 		return map[string]interface{}{"m": c14Map(v.GetMap())}
+	case mlrval.MT_ARRAY:
+		out := []interface{}{}
+		for _, e := range v.GetArray() {
+			out = append(out, c14Value(e))
+		}
+		return map[string]interface{}{"l": out}
 	case mlrval.MT_ERROR:
 		return map[string]interface{}{"e": 1}
 	case mlrval.MT_ABSENT:
@@ -126,6 +132,11 @@ func cmdC14Put(args []string, in *bufio.Scanner, out *bufio.Writer) {
 		fmt.Fprintln(out, `{"begin":1}`)
 		out.Flush()
 		res := c14RunCase(&c)
+		if !mlrval.VerifNullIntact() {
+			// the case converted the shared NULL constant in place: say so, and restore it for the next case
+			res["null_corrupted"] = true
+			mlrval.VerifResetNull()
+		}
 		b, _ := json.Marshal(res)
 		out.Write(b)
 		out.WriteString("\n")
@@ -155,6 +166,13 @@ func c14FromJSON(x interface{}) *mlrval.Mlrval {
 			mm.PutReference(pair[0].(string), c14FromJSON(pair[1]))
 		}
 		return mlrval.FromMap(mm)
+	}
+	if v, ok := m["l"]; ok {
+		arr := []*mlrval.Mlrval{}
+		for _, e := range v.([]interface{}) {
+			arr = append(arr, c14FromJSON(e))
+		}
+		return mlrval.FromArray(arr)
 	}
 	if _, ok := m["e"]; ok {
 		return mlrval.FromErrorString("e")
